@@ -11,6 +11,19 @@ for tc in ET.parse(out).getroot().iter('testcase'):
     if not any(ch.tag in ('failure', 'error', 'skipped') for ch in tc):
         passed.add(f"{tc.get('classname')}::{tc.get('name')}")
 missing = sorted(base - passed)
+if missing and len(missing) <= 40:
+    # timing-based tests (zmq publish / subscribe with sleeps) fail when the machine is loaded: the missing ones are
+    # run once more on their own before they are reported
+    files = sorted({m.split('::')[0].replace('.', '/') + '.py' for m in missing})
+    subprocess.run(['/venv/bin/python', '-m', 'pytest', '-q', '-p', 'no:cacheprovider', '--timeout=900',
+                    f'--junitxml={out}'] + files, cwd=repo, stdout=subprocess.DEVNULL, stderr=subprocess.DEVNULL,
+                   env={k: v for k, v in os.environ.items() if k != 'SUPVISORS_VERIF'})
+    for tc in ET.parse(out).getroot().iter('testcase'):
+        if not any(ch.tag in ('failure', 'error', 'skipped') for ch in tc):
+            passed.add(f"{tc.get('classname')}::{tc.get('name')}")
+    retried = missing
+    missing = sorted(base - passed)
+    print('retried', len(retried), 'tests of', files)
 print('baseline', len(base), 'passed', len(passed), 'missing from baseline:', missing)
 os.remove(out)
 sys.exit(1 if missing else 0)
